@@ -175,6 +175,8 @@ func (s *socket) GetOption(option string) (interface{}, error) {
 }
 
 func (s *socket) AddPipe(pp protocol.Pipe) error {
+	s.Lock()
+	defer s.Unlock()
 	p := &pipe{
 		p:      pp,
 		s:      s,
@@ -182,8 +184,6 @@ func (s *socket) AddPipe(pp protocol.Pipe) error {
 		sendQ:  make(chan *protocol.Message, s.sendQLen),
 	}
 	pp.SetPrivate(p)
-	s.Lock()
-	defer s.Unlock()
 	if s.closed {
 		return protocol.ErrClosed
 	}
